@@ -640,6 +640,53 @@ w('C20', 'BENIGN: fee floor combination with explicit GTE ordering of branches',
   (FU, '\t\tif minGasPrices.AmountOf(cmgp.Denom).IsZero() {\n\t\t\tminGasPrices = minGasPrices.Add(cmgp)\n\t\t} else if minGasPrices.AmountOf(cmgp.Denom).LT(cmgp.Amount) {\n\t\t\tminGasPrices = minGasPrices.Add(cmgp.Sub(sdk.NewDecCoinFromDec(cmgp.Denom, minGasPrices.AmountOf(cmgp.Denom))))\n\t\t} // else, GTE, use the original minGasPrice {',
        '\t\tcurrent := minGasPrices.AmountOf(cmgp.Denom)\n\t\tif current.IsZero() {\n\t\t\tminGasPrices = minGasPrices.Add(cmgp)\n\t\t\tcontinue\n\t\t}\n\t\tif current.GTE(cmgp.Amount) {\n\t\t\tcontinue\n\t\t}\n\t\tminGasPrices = minGasPrices.Add(cmgp.Sub(sdk.NewDecCoinFromDec(cmgp.Denom, minGasPrices.AmountOf(cmgp.Denom))))'))
 
+
+OR='x/opchild/keeper/oracle.go'
+LU='x/opchild/l2connect/utils.go'
+LA='x/opchild/l2connect/aggregator.go'
+HS='x/opchild/keeper/host_validator_store.go'
+# ---------------- C15
+w('C15', 'signature verification deleted', 'C15.R3',
+  (LU, '\t\tif !cmtPubKey.VerifySignature(extSignBytes, vote.ExtensionSignature) {\n\t\t\treturn fmt.Errorf("failed to verify validator %X vote extension signature", valConsAddr)\n\t\t}\n', '\t\t_ = cmtPubKey\n\t\t_ = extSignBytes\n'))
+w('C15', 'power counted before the commit-flag test', 'C15.R3',
+  (LU, '\t\tif vote.BlockIdFlag == cmtproto.BlockIDFlagCommit && len(vote.ExtensionSignature) == 0 {', '\t\tsumVP += power.Int64()\n\t\tif vote.BlockIdFlag == cmtproto.BlockIDFlagCommit && len(vote.ExtensionSignature) == 0 {'))
+w('C15', 'unknown validators counted with power from the vote', 'C15.R3',
+  (LU, '\t\t\t// use only current validator set, so ignore if the validator of the vote is not in the set.\n\t\t\tcontinue', '\t\t\t// use only current validator set, so ignore if the validator of the vote is not in the set.\n\t\t\tsumVP += vote.Validator.Power\n\t\t\tcontinue'))
+w('C15', 'sign bytes omit the chain id', 'C15.R3',
+  (LU, '\t\t\tChainId:   chainID,\n', ''))
+w('C15', 'sign bytes use the round of the vote-local constant 0', 'C15.R3',
+  (LU, '\t\t\tRound:     int64(extCommit.Round),\n', '\t\t\tRound:     0,\n'))
+w('C15', 'signature checked against the extension of the first vote', 'C15.R3',
+  (LU, '\t\t\tExtension: vote.VoteExtension,\n', '\t\t\tExtension: extCommit.Votes[0].VoteExtension,\n'))
+w('C15', 'quorum weakened to one third', 'C15.R3',
+  (LU, 'if requiredVP := ((totalVP * 2) / 3) + 1; sumVP < requiredVP {', 'if requiredVP := (totalVP / 3) + 1; sumVP < requiredVP {'))
+w('C15', 'quorum comparison < -> <= removed +1 (exactly two thirds rejected... inverted)', 'C15.R3',
+  (LU, 'if requiredVP := ((totalVP * 2) / 3) + 1; sumVP < requiredVP {', 'if requiredVP := ((totalVP * 2) / 3) + 1; sumVP > requiredVP {'))
+w('C15', 'votes validated for height h instead of h-1', 'C15.R2',
+  (OR, 'l2connect.ValidateVoteExtensions(sdkCtx, k.HostValidatorStore, h-1, hostChainID, extendedCommitInfo)', 'l2connect.ValidateVoteExtensions(sdkCtx, k.HostValidatorStore, h, hostChainID, extendedCommitInfo)'))
+w('C15', 'validation error ignored', 'C15.R2',
+  (OR, '\terr = l2connect.ValidateVoteExtensions(sdkCtx, k.HostValidatorStore, h-1, hostChainID, extendedCommitInfo)\n\tif err != nil {\n\t\treturn err\n\t}\n', '\t_ = l2connect.ValidateVoteExtensions(sdkCtx, k.HostValidatorStore, h-1, hostChainID, extendedCommitInfo)\n'))
+w('C15', 'height gate dropped', 'C15.R2',
+  (OR, '\tif hostStoreLastHeight > h {\n\t\treturn types.ErrInvalidOracleHeight\n\t}\n', '\t_ = hostStoreLastHeight\n'))
+w('C15', 'missing timestamp tolerated (current block time used)', 'C15.R2',
+  (OR, '\tif _, ok := prices[tsCp]; !ok {\n\t\treturn types.ErrOracleTimestampNotExists\n\t}\n', ''))
+w('C15', 'timestamp check !After -> Before (equal timestamps replayable)', 'C15.R4',
+  (LA, 'if err == nil && !updatedTime.After(qp.BlockTimestamp) {', 'if err == nil && updatedTime.Before(qp.BlockTimestamp) {'))
+w('C15', 'timestamp check removed', 'C15.R4',
+  (LA, '\t\tif err == nil && !updatedTime.After(qp.BlockTimestamp) {\n\t\t\treturn types.ErrInvalidOracleTimestamp\n\t\t}\n', '\t\t_, _ = qp, err\n'))
+w('C15', 'prices written by ranging over the map', 'C15.R4',
+  (LA, '\tcurrencyPairs := ok.GetAllCurrencyPairs(ctx)\n\tfor _, cp := range currencyPairs {\n\t\tprice, found := prices[cp]\n\t\tif !found || price == nil {\n\t\t\tcontinue\n\t\t}', '\tfor cp, price := range prices {\n\t\tif price == nil {\n\t\t\tcontinue\n\t\t}'))
+w('C15', 'host set: lastHeight >= height -> > (same height replaces the set)', 'C15.R5',
+  (HS, '\tif lastHeight >= height {', '\tif lastHeight > height {'))
+w('C15', 'host set updated for any client id', 'C15.R5',
+  (CK, '\t} else if l1ClientId != clientID {\n\t\treturn nil\n\t}', '\t} else if l1ClientId != clientID && false {\n\t\treturn nil\n\t}'))
+w('C15', 'UpdateOracle handler ignores the oracle-enabled flag', 'C15.R1',
+  (CM, '\tif !info.BridgeConfig.OracleEnabled {\n\t\treturn nil, types.ErrOracleDisabled\n\t}\n', '\t_ = info\n'))
+w('C15', 'new writer: SetBridgeInfo wipes the host validator set', 'C15.R5',
+  (CM, '\t// set bridge info\n', '\t_ = ms.HostValidatorStore.DeleteAllValidators(ctx)\n\t// set bridge info\n'))
+w('C15', 'BENIGN: commit-flag test hoisted and power looked up afterwards', '',
+  (LU, '\t\t// Only check + include power if the vote is a commit vote. There must be super-majority, otherwise the\n\t\t// previous block (the block vote is for) could not have been committed.\n\t\tif vote.BlockIdFlag != cmtproto.BlockIDFlagCommit {\n\t\t\tcontinue\n\t\t}\n', '\t\tisCommit := vote.BlockIdFlag == cmtproto.BlockIDFlagCommit\n\t\tif !isCommit {\n\t\t\tcontinue\n\t\t}\n'))
+
 #@@MORE@@
 for p,l in W.items():
     json.dump(l, open(os.path.join(HERE,p+'.json'),'w'), indent=1)
